@@ -49,7 +49,22 @@ type Opts struct {
 func ViewBox(r *run.Rng) ivg.ViewBox {
 	switch r.Intn(6) {
 	case 0:
-		return ivg.DefaultViewBox
+		vb := ivg.DefaultViewBox
+		if r.Chance(1, 2) {
+			// the default with one coordinate changed (still min <= max)
+			d := float32(r.Pick(1, 16, 32, 64, 96)) / float32(r.Pick(1, 1, 2, 64))
+			switch r.Intn(4) {
+			case 0:
+				vb.MinX -= d
+			case 1:
+				vb.MinY -= d
+			case 2:
+				vb.MaxX += d
+			default:
+				vb.MaxY += d
+			}
+		}
+		return vb
 	case 1:
 		return ivg.ViewBox{MinX: 0, MinY: 0, MaxX: 48, MaxY: 48}
 	case 2:
